@@ -29,6 +29,7 @@ func init() {
 	ruleText["R11.8"] = "every assignment to Interpreter.name lies under a condition comparing the assigned value, or the field itself, with the empty string"
 	ruleText["R11.9"] = "while compDefineX identifies a redeclared variable by 'lookup level == identifier level', neither compDefineX nor the defineXStmt case of gta sets symbol.global (literal key or assignment)"
 	ruleText["R11.10"] = "same analysis as C05/R05.6 (the method-resolution functions keep no state between calls)"
+	ruleText["R11.11"] = "every call of genGlobalVars reached from importSrc (directly or through one in-package helper) receives the slice importSrc appends the root node of each file to, and is not made inside a loop"
 	ruleText["R11.4"] = "each exported method of *Interpreter named Eval*/Compile*/Execute*/REPL reaches CompileAST, importSrc or Execute on the static call graph; gta, gtaRetry, cfg and genRun are called only from CompileAST, importSrc, Execute and the compile passes themselves"
 }
 
@@ -117,6 +118,7 @@ func runC11(c *Config, r *Report) {
 	// R11.10: a method declared by a later evaluation is seen by every type that gains it
 	// (same analysis as C05/R05.6: method resolution is recomputed, never remembered)
 	pureLookups(ic, r, "R11.10")
+	c11R11(ic, r)
 }
 
 func c11R2(ic *IC, r *Report) {
@@ -793,4 +795,112 @@ func c11R9(ic *IC, r *Report) {
 	}
 	r.Check(len(bad) == 0, "R11.9", "compDefineX/var-symbols-not-global", ic.pos(cdx.Decl.Pos()), "the variables of a multiple-value define are not flagged global",
 		strings.Join(bad, "; ")+": scope.lookup then reports the global-frame level for them and the 'same variable' test of compDefineX (lookup level == identifier level) fails, so `x, z := f()` fed after `x, y := f()` creates a second x and closures taken in between keep the first one")
+}
+
+// c11R11: a package evaluated from a directory (EvalPath, import of a source package) is
+// initialised as one piece: importSrc orders and runs the package variables of all its files
+// together, after the closures of every file have been generated. Every call of genGlobalVars
+// made by importSrc, directly or through an in-package helper, receives the list accumulated
+// over the files (a slice appended to in a loop of importSrc) and is not made inside a loop.
+func c11R11(ic *IC, r *Report) {
+	fi := ic.fn(r, "Interpreter.importSrc")
+	if fi == nil {
+		return
+	}
+	info := ic.Info
+	// slices appended to inside a loop of importSrc
+	accum := map[types.Object]bool{}
+	ast.Inspect(fi.Decl.Body, func(n ast.Node) bool {
+		body := loopBody(n)
+		if body == nil {
+			return true
+		}
+		ast.Inspect(body, func(m ast.Node) bool {
+			as, ok := m.(*ast.AssignStmt)
+			if !ok || len(as.Lhs) != 1 || len(as.Rhs) != 1 {
+				return true
+			}
+			c, ok := unparen(as.Rhs[0]).(*ast.CallExpr)
+			if !ok || !isBuiltinCall(info, c, "append") || len(c.Args) < 2 {
+				return true
+			}
+			if id, ok := as.Lhs[0].(*ast.Ident); ok {
+				if a0, ok := unparen(c.Args[0]).(*ast.Ident); ok && info.ObjectOf(a0) == info.ObjectOf(id) {
+					accum[info.ObjectOf(id)] = true
+				}
+			}
+			return true
+		})
+		return true
+	})
+	inLoop := func(root ast.Node, target ast.Node) bool {
+		for _, p := range enclosingPath(root, target) {
+			if p != target && loopBody(p) != nil {
+				return true
+			}
+		}
+		return false
+	}
+	n := 0
+	check := func(call *ast.CallExpr, arg ast.Expr, via string) {
+		n++
+		key := fmt.Sprintf("importSrc/package-variables#%d/ordered-together", n)
+		id, isID := unparen(arg).(*ast.Ident)
+		whole := isID && accum[info.ObjectOf(id)]
+		loop := inLoop(fi.Decl.Body, call)
+		why := ""
+		switch {
+		case !whole:
+			why = "receives " + types.ExprString(arg) + ", which is not the list of root nodes accumulated over the files of the package"
+		case loop:
+			why = "is made inside a loop"
+		}
+		r.Check(why == "", "R11.11", key, ic.pos(call.Pos()), "the variables of all the files are ordered and initialised together",
+			"the ordering of package variables reached from importSrc"+via+" "+why+": the variables of one file are initialised before the next file is prepared, so an initializer that reads a variable, or calls a function, declared in a later file of the directory sees the zero value, unlike the same package evaluated in one piece")
+	}
+	ast.Inspect(fi.Decl.Body, func(m ast.Node) bool {
+		c, ok := m.(*ast.CallExpr)
+		if !ok {
+			return true
+		}
+		f, ok := calleeOf(info, c).(*types.Func)
+		if !ok || f.Pkg() != ic.Pk.Types {
+			return true
+		}
+		if isCallTo(info, c, "interp.genGlobalVars") && len(c.Args) > 0 {
+			check(c, c.Args[0], "")
+			return true
+		}
+		// one level of helper: the helper's genGlobalVars argument must be one of its parameters,
+		// bound at this call to the accumulated list
+		hfi := ic.G.Funcs[f]
+		if hfi == nil || hfi.Decl.Body == nil || hfi == fi || canonFuncName(funcName(hfi.Decl)) == "Interpreter.gta" || canonFuncName(funcName(hfi.Decl)) == "Interpreter.gtaRetry" || canonFuncName(funcName(hfi.Decl)) == "Interpreter.cfg" {
+			return true
+		}
+		for _, hc := range callsIn(info, hfi.Decl.Body, false, "interp.genGlobalVars") {
+			if len(hc.Args) == 0 {
+				continue
+			}
+			var bound ast.Expr
+			if pid, ok := unparen(hc.Args[0]).(*ast.Ident); ok {
+				idx := 0
+				for _, fl := range hfi.Decl.Type.Params.List {
+					for _, nm := range fl.Names {
+						if info.ObjectOf(nm) == info.ObjectOf(pid) && idx < len(c.Args) {
+							bound = c.Args[idx]
+						}
+						idx++
+					}
+				}
+			}
+			if bound == nil {
+				bound = hc.Args[0]
+			}
+			check(c, bound, " through "+funcName(hfi.Decl))
+		}
+		return true
+	})
+	if n == 0 {
+		r.Errorf("R11.11: no call of genGlobalVars is reached from importSrc (directly or through one helper)")
+	}
 }
